@@ -478,21 +478,41 @@ def r_py_args(rep, f):
 
 
 def r_py_sol(rep, f):
-    """PyOdeSolution evaluates through the extrapolating lookup (SciPy semantics), never the range-checked one"""
+    """PyOdeSolution evaluates through the extrapolating lookup (SciPy semantics), never the range-checked one: every
+    ContinuousOutput method it calls must reach the extrapolating segment lookup in the call graph of cont.rs (a method that
+    only reaches the range-checked lookup - evaluate, evaluate_many, whatever it is called - fails outside the span)."""
     key0 = "R-PY-SOL"
+    CO = "solve::cont::ContinuousOutput::"
+    EXTRA, RANGE = CO + "find_segment_extrapolate", CO + "find_segment"
+    if EXTRA not in f.bodies or RANGE not in f.bodies:
+        rep.inconc(key0, key0 + ":anchor", "ContinuousOutput::find_segment / find_segment_extrapolate not found")
+        return
+
+    def reach(d, seen):
+        if d in seen or d not in f.bodies:
+            return seen
+        seen.add(d)
+        for c in tast.find(f.bodies[d]["body"], lambda z: z.get("k") in ("MethodCall", "Call") and (z.get("def") or "").startswith(("solve::cont::", "dense::", "<dense::"))):
+            reach(c["def"], seen)
+        for cl in tast.find(f.bodies[d]["body"], lambda z: z.get("k") == "Closure" and (z.get("def") or "") in f.bodies):
+            reach(cl["def"], seen)
+        return seen
     n = 0
     for b in f.body_list:
         if "python::solution::PyOdeSolution" not in b["def"]:
             continue
-        for c in tast.find(b["body"], lambda z: z.get("k") == "MethodCall" and (z.get("def") or "").startswith("solve::cont::ContinuousOutput::")):
+        for c in tast.find(b["body"], lambda z: z.get("k") == "MethodCall" and (z.get("def") or "").startswith(CO)):
+            r_ = reach(c["def"], set())
+            if EXTRA not in r_ and RANGE not in r_:
+                continue          # not an evaluation (t_span, ..)
             nm = c["def"].split("::")[-1]
-            if nm in ("evaluate", "evaluate_extrapolate"):
-                n += 1
-                key = "%s:%s:%s" % (key0, b["def"].split("::")[-1], nm)
-                if nm == "evaluate_extrapolate":
-                    rep.ok(key0, key, "extrapolating evaluation")
-                else:
-                    rep.violation(key0, key, "%s uses the range-checked ContinuousOutput::evaluate: sol(t) outside the span would fail instead of extrapolating as SciPy does" % b["def"], c.get("sp"))
+            n += 1
+            key = "%s:%s:%s" % (key0, b["def"].split("::")[-1], nm)
+            if EXTRA in r_:
+                rep.ok(key0, key, "extrapolating evaluation")
+            else:
+                rep.violation(key0, key, "%s evaluates through ContinuousOutput::%s, which only reaches the range-checked segment lookup: sol(t) outside the span fails "
+                              "instead of extrapolating as SciPy does" % (b["def"], nm), c.get("sp"))
     if n < 2:
         rep.inconc(key0, key0 + ":floor", "only %d evaluation call sites in PyOdeSolution" % n)
 
